@@ -493,3 +493,236 @@ func normaliseLoops(toks []string) []string {
 	}
 	return out
 }
+
+// ---- PANIC-INDEX -----------------------------------------------------------------------------------------------
+
+func init() {
+	register(Rule{
+		Name:  "PANIC-INDEX",
+		Props: []string{"C09"},
+		Doc:   "every constant index into a split key is preceded by a length test that covers it",
+		Run:   panicIndex,
+	})
+}
+
+// panicIndex (C09): the split keys of the sortref package are slices whose length is decided by the document (a
+// pointer may stop anywhere). In every method of a named slice type of that package, an index expression s[K] with
+// a constant K must be preceded — in the same && chain, in a dominating condition, or through a predicate of the
+// same receiver whose truth implies it — by a test establishing len(s) > K; otherwise Flatten panics (index out
+// of range) on a key shorter than the method assumes.
+func panicIndex(c *Ctx) {
+	n := 0
+	boundMemo := map[*core.FuncInfo]int{}
+	var predBound func(g *core.FuncInfo, depth int) int
+	// atomBound: the lower bound on len(recv) that the truth of one atom establishes (0 = nothing)
+	atomBound := func(fi *core.FuncInfo, recv types.Object, cd core.Cond, depth int) int {
+		info := c.info(fi)
+		if cd.Kind != core.CondBool {
+			return 0
+		}
+		e := core.Unparen(cd.Expr)
+		lenOfRecv := func(x ast.Expr) bool {
+			call, ok := core.Unparen(x).(*ast.CallExpr)
+			return ok && isBuiltin(info, call, "len") && len(call.Args) == 1 && core.ObjOf(info, call.Args[0]) == recv
+		}
+		num := func(x ast.Expr) (int, bool) {
+			if tv, ok := info.Types[core.Unparen(x)]; ok && tv.Value != nil {
+				var i int
+				if _, err := fmt.Sscanf(tv.Value.String(), "%d", &i); err == nil {
+					return i, true
+				}
+			}
+			return 0, false
+		}
+		if be, ok := e.(*ast.BinaryExpr); ok {
+			op := be.Op
+			x, y := be.X, be.Y
+			if lenOfRecv(y) { // N < len(s)  ==  len(s) > N
+				x, y = y, x
+				switch op {
+				case token.LSS:
+					op = token.GTR
+				case token.LEQ:
+					op = token.GEQ
+				case token.GTR:
+					op = token.LSS
+				case token.GEQ:
+					op = token.LEQ
+				}
+			}
+			if lenOfRecv(x) {
+				if v, ok := num(y); ok {
+					if !cd.Neg {
+						switch op {
+						case token.GTR:
+							return v + 1
+						case token.GEQ:
+							return v
+						case token.EQL:
+							return v
+						}
+					} else {
+						switch op { // !(len < v) = len >= v ; !(len <= v) = len > v
+						case token.LSS:
+							return v
+						case token.LEQ:
+							return v + 1
+						}
+					}
+				}
+			}
+			return 0
+		}
+		if call, ok := e.(*ast.CallExpr); ok && !cd.Neg {
+			if sel, ok := core.Unparen(call.Fun).(*ast.SelectorExpr); ok && core.ObjOf(info, sel.X) == recv {
+				if callee := c.P.StaticCallee(fi, call); callee != nil {
+					if g := c.P.Funcs[callee]; g != nil {
+						return predBound(g, depth+1)
+					}
+				}
+			}
+		}
+		return 0
+	}
+	recvOf := func(fi *core.FuncInfo) types.Object {
+		if fi.Decl.Recv == nil || len(fi.Decl.Recv.List) != 1 || len(fi.Decl.Recv.List[0].Names) != 1 {
+			return nil
+		}
+		return c.info(fi).Defs[fi.Decl.Recv.List[0].Names[0]]
+	}
+	// predBound: the truth of predicate g implies len(recv) >= bound
+	predBound = func(g *core.FuncInfo, depth int) int {
+		if b, ok := boundMemo[g]; ok {
+			return b
+		}
+		boundMemo[g] = 0
+		if depth > 4 || g.Decl == nil || g.Decl.Body == nil {
+			return 0
+		}
+		recv := recvOf(g)
+		if recv == nil {
+			return 0
+		}
+		// every return that may be true contributes; the bound is the minimum over them
+		best, first := 0, true
+		ast.Inspect(g.Decl.Body, func(nd ast.Node) bool {
+			if _, isLit := nd.(*ast.FuncLit); isLit {
+				return false
+			}
+			ret, ok := nd.(*ast.ReturnStmt)
+			if !ok || len(ret.Results) != 1 {
+				return true
+			}
+			if tv, isC := c.info(g).Types[ret.Results[0]]; isC && tv.Value != nil && tv.Value.String() == "false" {
+				return true
+			}
+			b := 0
+			for _, cd := range core.SplitCond(ret.Results[0], false) {
+				if v := atomBound(g, recv, cd, depth); v > b {
+					b = v
+				}
+			}
+			for _, cd := range c.conds(g, ret) {
+				if v := atomBound(g, recv, cd, depth); v > b {
+					b = v
+				}
+			}
+			if first || b < best {
+				best, first = b, false
+			}
+			return true
+		})
+		boundMemo[g] = best
+		return best
+	}
+	for _, fi := range c.P.SortedFuncs() {
+		if !strings.HasSuffix(fi.Pkg.PkgPath, "/sortref") {
+			continue
+		}
+		recv := recvOf(fi)
+		if recv == nil || !core.IsSlice(recv.Type()) {
+			continue
+		}
+		info := c.info(fi)
+		pm := c.parents(fi)
+		ord := 0
+		// bound established at a node: dominating statement conditions + the left operands of enclosing && chains;
+		// inside a function literal bound to a local, the conditions at the literal's call sites
+		var boundAt func(node ast.Node, depth int) int
+		boundAt = func(node ast.Node, depth int) int {
+			b := 0
+			for _, cd := range c.conds(fi, node) {
+				if v := atomBound(fi, recv, cd, 0); v > b {
+					b = v
+				}
+			}
+			child := node
+			for p := pm[node]; p != nil; child, p = p, pm[p] {
+				if be, ok := p.(*ast.BinaryExpr); ok && be.Op == token.LAND && be.Y == child {
+					for _, cd := range core.SplitCond(be.X, false) {
+						if v := atomBound(fi, recv, cd, 0); v > b {
+							b = v
+						}
+					}
+				}
+				if lit, ok := p.(*ast.FuncLit); ok && depth < 2 {
+					// the literal's call sites
+					if as, ok := pm[lit].(*ast.AssignStmt); ok && len(as.Lhs) == 1 {
+						lo := core.ObjOf(info, as.Lhs[0])
+						min, any := 0, false
+						ast.Inspect(fi.Decl.Body, func(m ast.Node) bool {
+							if call, ok := m.(*ast.CallExpr); ok && core.ObjOf(info, call.Fun) == lo && lo != nil {
+								v := boundAt(call, depth+1)
+								if !any || v < min {
+									min, any = v, true
+								}
+							}
+							return true
+						})
+						if any && min > b {
+							b = min
+						}
+					}
+					break
+				}
+				if _, isStmt := p.(ast.Stmt); isStmt {
+					// keep climbing: conds() already covers statements; && chains only live inside expressions
+					if _, isExprStmt := p.(*ast.ExprStmt); !isExprStmt {
+						if _, isRet := p.(*ast.ReturnStmt); !isRet {
+							if _, isAs := p.(*ast.AssignStmt); !isAs {
+								if _, isIf := p.(*ast.IfStmt); !isIf {
+									continue
+								}
+							}
+						}
+					}
+				}
+			}
+			return b
+		}
+		ast.Inspect(fi.Decl.Body, func(nd ast.Node) bool {
+			ix, ok := nd.(*ast.IndexExpr)
+			if !ok || core.ObjOf(info, ix.X) != recv {
+				return true
+			}
+			tv, isC := info.Types[ix.Index]
+			if !isC || tv.Value == nil {
+				return true
+			}
+			var k int
+			if _, err := fmt.Sscanf(tv.Value.String(), "%d", &k); err != nil {
+				return true
+			}
+			n++
+			ord++
+			b := boundAt(ix, 0)
+			c.S.Decide(b >= k+1, "C09", "PANIC-INDEX", fmt.Sprintf("%s/index#%d", fi.QName(), ord), c.P.Pos(ix.Pos()),
+				fmt.Sprintf("len >= %d is established before index %d is read", b, k),
+				fmt.Sprintf("index %d of the split key is read where only len >= %d is established: a key with %d segments or fewer (a pointer that stops at an operation's responses object, say) makes this panic with index out of range, and Flatten crashes", k, b, k))
+			return true
+		})
+	}
+	if n < 5 {
+		c.S.Note("PANIC-INDEX: fewer than five constant indexes into split keys found (about fifteen on the pinned tree)")
+	}
+}
